@@ -1,4 +1,237 @@
 package main
 
-func thoroughConfigs(def *propertyDef, r *Report, repo string, st *runStats) {}
-func thoroughCorpus(def *propertyDef, r *Report, repo, verif string, st *runStats) {}
+import (
+	"encoding/json"
+	"fmt"
+	"io"
+	"os"
+	"os/exec"
+	"path/filepath"
+	"sort"
+	"strings"
+)
+
+// Build configurations the module can be built as, beyond the default.
+var extraConfigs = []LoadConfig{
+	{GOOS: "linux", GOARCH: "386"},
+	{GOOS: "darwin", GOARCH: "arm64"},
+	{Tags: "tools"},
+}
+
+func cfgName(c LoadConfig) string {
+	s := c.GOOS + "/" + c.GOARCH
+	if c.GOOS == "" {
+		s = "linux/amd64"
+	}
+	if c.Tags != "" {
+		s += " -tags " + c.Tags
+	}
+	return s
+}
+
+// thoroughConfigs re-evaluates the property's rules under every other build
+// configuration; obligations are recorded with their configuration.
+func thoroughConfigs(def *propertyDef, r *Report, repo string, st *runStats) {
+	for _, c := range extraConfigs {
+		c.Dir = repo
+		name := cfgName(c)
+		w, err := loadWorld(c)
+		if err != nil {
+			r.Config = name
+			r.Undecided("G.load", "load:"+name, "-", "cannot load /repo under "+name+": "+err.Error())
+			r.Config = ""
+			continue
+		}
+		st.Configs = append(st.Configs, name)
+		sub := newReport(def.ID, r.Tier)
+		sub.Config = name
+		ruleG0(w, sub)
+		def.Run(w, sub)
+		sub.checkFloors()
+		for _, o := range sub.Obligs {
+			r.Obligs = append(r.Obligs, o)
+			if ri := r.ruleIdx[o.Rule]; ri != nil {
+				ri.Count++
+			} else {
+				r.Rule(o.Rule, "", 0)
+				r.ruleIdx[o.Rule].Count++
+			}
+		}
+	}
+}
+
+type corpusEntry struct {
+	ID          string   `json:"id"`
+	File        string   `json:"file"`
+	Properties  []string `json:"properties"`
+	ExpectRules []string `json:"expect_rules"`
+	Control     bool     `json:"control"`
+	Note        string   `json:"note"`
+	dir         string
+}
+
+func loadCorpus(verif string) []corpusEntry {
+	var out []corpusEntry
+	if b, err := os.ReadFile(filepath.Join(verif, "mutants", "INDEX.json")); err == nil {
+		var es []corpusEntry
+		if json.Unmarshal(b, &es) == nil {
+			for _, e := range es {
+				e.dir = filepath.Join(verif, "mutants")
+				out = append(out, e)
+			}
+		}
+	}
+	// independently seeded changes (thorough tier only; never controls)
+	metas, _ := filepath.Glob(filepath.Join(verif, "seeded", "*", "meta.json"))
+	sort.Strings(metas)
+	for _, m := range metas {
+		b, err := os.ReadFile(m)
+		if err != nil {
+			continue
+		}
+		var meta struct {
+			ID         string              `json:"id"`
+			DetectedBy map[string][]string `json:"detected_by"`
+			Summary    string              `json:"summary"`
+		}
+		if json.Unmarshal(b, &meta) != nil {
+			continue
+		}
+		for prop, rules := range meta.DetectedBy {
+			out = append(out, corpusEntry{ID: "seeded/" + meta.ID, File: "patch.diff", Properties: []string{prop}, ExpectRules: rules, Note: meta.Summary, dir: filepath.Dir(m)})
+		}
+	}
+	return out
+}
+
+func copyTree(src, dst string) error {
+	return filepath.Walk(src, func(p string, info os.FileInfo, err error) error {
+		if err != nil {
+			return err
+		}
+		rel, _ := filepath.Rel(src, p)
+		if rel == ".git" || strings.HasPrefix(rel, ".git"+string(filepath.Separator)) {
+			if info.IsDir() {
+				return filepath.SkipDir
+			}
+			return nil
+		}
+		target := filepath.Join(dst, rel)
+		if info.IsDir() {
+			return os.MkdirAll(target, 0755)
+		}
+		if !info.Mode().IsRegular() {
+			return nil
+		}
+		in, err := os.Open(p)
+		if err != nil {
+			return err
+		}
+		defer in.Close()
+		out, err := os.OpenFile(target, os.O_CREATE|os.O_WRONLY|os.O_TRUNC, 0644)
+		if err != nil {
+			return err
+		}
+		defer out.Close()
+		_, err = io.Copy(out, in)
+		return err
+	})
+}
+
+// runCorpus applies each variant to a scratch copy of the current /repo tree
+// (under the system temp dir, removed afterwards), analyses it and requires
+// that one of the expected rules reports a violation. A variant whose
+// context no longer applies is recorded as skipped.
+func runCorpus(def *propertyDef, r *Report, repo, verif string, st *runStats, controlsOnly bool) {
+	entries := loadCorpus(verif)
+	for _, e := range entries {
+		relevant := false
+		for _, p := range e.Properties {
+			if p == def.ID {
+				relevant = true
+			}
+		}
+		if !relevant || (controlsOnly && !e.Control) {
+			continue
+		}
+		rec := map[string]interface{}{"id": e.ID, "note": e.Note, "expect": e.ExpectRules}
+		scratch, err := os.MkdirTemp("", "wtcheck-variant-")
+		if err != nil {
+			rec["status"] = "error: " + err.Error()
+			st.Corpus = append(st.Corpus, rec)
+			continue
+		}
+		func() {
+			defer os.RemoveAll(scratch)
+			if err := copyTree(repo, scratch); err != nil {
+				rec["status"] = "error: copy: " + err.Error()
+				return
+			}
+			cmd := exec.Command("git", "apply", "--whitespace=nowarn", filepath.Join(e.dir, e.File))
+			cmd.Dir = scratch
+			cmd.Env = append(os.Environ(), "GIT_CEILING_DIRECTORIES="+filepath.Dir(scratch))
+			if out, err := cmd.CombinedOutput(); err != nil {
+				rec["status"] = "skipped: patch no longer applies to the current tree"
+				rec["git"] = strings.TrimSpace(string(out))
+				return
+			}
+			w, err := loadWorld(LoadConfig{Dir: scratch})
+			if err != nil {
+				rec["status"] = "skipped: variant does not load: " + err.Error()
+				return
+			}
+			sub := newReport(def.ID, "quick")
+			ruleG0(w, sub)
+			func() {
+				defer func() {
+					if p := recover(); p != nil {
+						sub.Undecided("G.panic", "analyser", "-", fmt.Sprint(p))
+					}
+				}()
+				def.Run(w, sub)
+			}()
+			sub.checkFloors()
+			fired := map[string]bool{}
+			for _, o := range sub.Obligs {
+				if o.Verdict != Discharged {
+					fired[o.Rule] = true
+				}
+			}
+			var fl []string
+			for k := range fired {
+				fl = append(fl, k)
+			}
+			sort.Strings(fl)
+			rec["fired"] = fl
+			hit := false
+			for _, want := range e.ExpectRules {
+				if fired[want] {
+					hit = true
+				}
+			}
+			if hit {
+				rec["status"] = "detected"
+			} else {
+				rec["status"] = "MISSED"
+			}
+		}()
+		st.Corpus = append(st.Corpus, rec)
+		kind := "variant"
+		if e.Control {
+			kind = "control"
+		}
+		switch rec["status"] {
+		case "detected":
+			r.OK("G.control", kind+":"+e.ID, "-", fmt.Sprintf("rule(s) %v fire on the seeded variant (%s)", rec["fired"], e.Note))
+		case "MISSED":
+			r.Undecided("G.control", kind+":"+e.ID, "-", fmt.Sprintf("the variant %q (%s) is not reported by any of %v (fired: %v): the rule is dead or too weak", e.ID, e.Note, e.ExpectRules, rec["fired"]))
+		default:
+			r.Notes = append(r.Notes, fmt.Sprintf("corpus %s: %v", e.ID, rec["status"]))
+		}
+	}
+}
+
+func thoroughCorpus(def *propertyDef, r *Report, repo, verif string, st *runStats) {
+	r.Rule("G.control", "positive controls: each seeded variant (one instance broken in a scratch copy of the current tree) must be reported by its expected rule; a miss marks the rule dead", 0)
+	runCorpus(def, r, repo, verif, st, false)
+}
